@@ -13,7 +13,7 @@ from . import core
 from .core import (SymInt, SymBool, SymReal, SymArray, mk, mkb, lift, bexpr, GUARDS, guard, EngineError)
 
 UNB = object()
-ACC_MERGE = True
+ACC_MERGE = False        # accumulator-aware merging (flat sums of guarded increments); harnesses opt in
 SOURCES: dict = {}          # qualified name -> sha256 of the source text that was executed symbolically
 STATS: dict = {}
 
